@@ -6,6 +6,17 @@
 #![cfg_attr(kani, feature(allocator_api))]
 #![allow(static_mut_refs, clippy::all, dead_code, unused_imports, unused_macros)]
 
+/// Vacuity witness. Compiled out with feature `nocover` (used for the trace-producing second
+/// run of a FAILED harness: CBMC builds one trace per satisfied cover, which is where the
+/// memory of a playback run goes).
+#[macro_export]
+macro_rules! vcover {
+    ($($t:tt)*) => {
+        #[cfg(not(feature = "nocover"))]
+        kani::cover!($($t)*);
+    };
+}
+
 pub mod known;
 pub mod stubs;
 pub mod ref_annexb;
